@@ -584,3 +584,68 @@ func mustPassEdges(p *engine.Program, fn *ssa.Function, target ssa.Instruction, 
 	}
 	return n > 0
 }
+
+// noticeAlwaysSent: sendUnreachable hands every notice to sendMessage — assuming the marshal
+// succeeded, no return is reachable without the send (no rate limit, cache or filter in between).
+func noticeAlwaysSent(p *engine.Program, su *ssa.Function) (bool, string) {
+	sends := callsTo(su, "(*netceptor.Netceptor).sendMessage")
+	if len(sends) == 0 {
+		return false, "sendUnreachable no longer calls sendMessage"
+	}
+	cut := engine.EdgeSet{}
+	for _, ci := range callsTo(su, "encoding/json.Marshal") {
+		if c, ok := ci.(*ssa.Call); ok {
+			if e, tested := assumeSucceeds(su, c); tested {
+				for k := range e {
+					cut[k] = true
+				}
+			}
+		}
+	}
+	isSend := func(in ssa.Instruction) bool {
+		for _, s := range sends {
+			if in == ssa.Instruction(s) {
+				return true
+			}
+		}
+		return false
+	}
+	if hit := engine.Reach(su, nil, cut, isSend, func(in ssa.Instruction) bool { _, ok := in.(*ssa.Return); return ok }); hit != nil {
+		return false, "sendUnreachable can return at " + descInstr(p, hit) + " without sending the notice although it could be encoded (a rate limit, cache or filter): some senders never learn that their packet expired / was rejected / hit an unknown service"
+	}
+	return true, ""
+}
+
+// decodedAlwaysDispatched: in runProtocol every data packet that decoded successfully is handed to
+// handleMessageData before the loop takes the next message (no receive-side filter in between).
+func decodedAlwaysDispatched(p *engine.Program, rp *ssa.Function) (bool, string) {
+	decs := callsTo(rp, "(*netceptor.Netceptor).translateDataToMessage")
+	hmds := callsTo(rp, "(*netceptor.Netceptor).handleMessageData")
+	if len(decs) != 1 || len(hmds) == 0 {
+		return false, fmt.Sprintf("expected one decode and at least one dispatch in runProtocol, found %d and %d", len(decs), len(hmds))
+	}
+	dec := decs[0].(*ssa.Call)
+	cut, tested := assumeSucceeds(rp, dec)
+	if !tested {
+		return false, "the decode error is not tested"
+	}
+	isDispatch := func(in ssa.Instruction) bool {
+		for _, h := range hmds {
+			if in == ssa.Instruction(h) {
+				return true
+			}
+		}
+		return false
+	}
+	hit := engine.Reach(rp, dec, cut, isDispatch, func(in ssa.Instruction) bool {
+		switch in.(type) {
+		case *ssa.Select, *ssa.Return:
+			return true
+		}
+		return false
+	})
+	if hit != nil {
+		return false, "a successfully decoded data packet can be discarded before handleMessageData (the loop goes on at " + descInstr(p, hit) + "): packets are dropped silently on the receive side, with no expiry or unreachable notice"
+	}
+	return true, ""
+}
